@@ -55,6 +55,20 @@ class World:
         elif m["type"] == "catalogue":
             cls = getattr(top, m["cls"])
             params = {k: Rational(v[0], v[1]) for k, v in m.get("params", {}).items()}
+            if case.get("prehistory") and params:
+                # the same class and NAME with other parameter values, used first in the same interpreter (sympy's
+                # cache is not cleared in between): a different input, which must not influence the case
+                try:
+                    from sympde.topology import LogicalExpr as _LE
+                    from sympde.expr.evaluation import TerminalExpr as _TE
+                    other = {k: v + Rational(1 + i, 2) for i, (k, v) in enumerate(sorted(params.items()))}
+                    M0 = cls("M", dim=d, **other)
+                    D0 = M0(Domain("Omega", dim=d))
+                    f0 = element_of(ScalarFunctionSpace("V_pre", D0, kind=None), name="pre")
+                    from sympde.calculus import grad as _grad, dot as _dot
+                    _TE(_LE(D0.coordinates[0] * f0 + _dot(_grad(f0), _grad(f0)), D0), D0.logical_domain)
+                except Exception:  # noqa
+                    pass
             self.M = cls("M", dim=d, **params)
         elif m["type"] == "user":
             ex = {PHYS[i]: m["exprs"][i] for i in range(d)}
